@@ -20,6 +20,9 @@ def run(chk, only=None):
     budget = 600 if quick else 3000
     jobs = hj_run.jobs_commute(nmax, Hmax, budget)
     jobs += [j for j in hj_run.jobs_one(['log'], nmax, Hmax, budget)]
+    if quick:
+        jobs += hj_run.jobs_commute_three(budget)
+    jobs += hj_run.jobs_tieorder(nmax, Hmax, budget)
     if only:
         jobs = [j for j in jobs if only in repr(j)]
     hj_run.common_evidence(chk, nmax, Hmax)
